@@ -28,7 +28,7 @@ def mk(n, terms=True, coeffs=True, extra=True, cell='ortho', seed=0, labels=True
         pool_a = [(0, 1, 2), (1, 2, 3), (2, 3, 4), (4, 1, 0), (3, 4, 5)]
         pool_d = [(0, 1, 2, 3), (1, 2, 3, 4), (4, 3, 1, 0), (2, 3, 4, 5)]
         pool_i = [(1, 0, 2, 3), (3, 1, 2, 4), (5, 4, 3, 2)]
-        for name, plural, pool, nt in (('bond', 'bonds', pool_b, 3), ('angle', 'angles', pool_a, 2), ('dihedral', 'dihedrals', pool_d, 2), ('improper', 'impropers', pool_i, 2)):
+        for name, plural, pool, nt in (('bond', 'bonds', pool_b, 3), ('angle', 'angles', pool_a, 2), ('dihedral', 'dihedrals', pool_d, 4), ('improper', 'impropers', pool_i, 5)):
             ts = [t for t in pool if max(t) < n]
             if not ts or (kinds is not None and name not in kinds):
                 continue
